@@ -69,7 +69,8 @@ def capSet (caps : List (Bytes × Option Bytes)) (k : Bytes) (v : Option Bytes) 
 
 abbrev Res (α : Type) := Except RErr α × Client
 
-def write (c : Client) (b : Bytes) : Client := { c with writes := c.writes ++ [(c.tls, b)] }
+def write (c : Client) (b : Bytes) : Client :=
+  { c with writes := c.writes ++ [(c.tls, b)], r := { c.r with net := c.r.net.release } }
 
 structure Reply where
   code : Option Status
@@ -319,7 +320,7 @@ def starttls (c : Client) (env : ConnEnv) : Res Bool :=
   | (.ok rep, c1) =>
     if rep.code != some .OK then (.ok false, c1) else
     if !env.tlsOk then (.error .error, c1) else
-    let c2 := { c1 with tls := true, r := { c1.r with buf := [] }, caps := [] }
+    let c2 := { c1 with tls := true, r := { c1.r with buf := [], net := c1.r.net.release }, caps := [] }
     match getCapabilities c2 with
     | (.error e, c3) => (.error e, c3)
     | (.ok _, c3) => (.ok true, c3)
